@@ -404,7 +404,8 @@ def _derive(ctx, key):
     R = get_roles(ctx)
     kind, what = key.split('.')
     pre = kind + '::'
-    fns = [n for n, b in prog.bodies.items() if n.startswith(pre) and b.kind != 'closure']
+    # (an extension trait implemented in the cache's module -- `impl CapacityExt for Option<u64>` -- has an impl path that names the module)
+    fns = [n for n, b in prog.bodies.items() if (n.startswith(pre) or (' as ' + pre) in n) and b.kind != 'closure']
 
     def root_ext(n):
         s = set(R.ext_calls.get(n, ()))
@@ -496,11 +497,18 @@ def _derive(ctx, key):
             for x in [n] + prog.closures_of.get(n, []):
                 reads |= {e[2] for e in eff.direct.get(x, ()) if e[0] == 'read'}
             # the capacity is read from the cache state, or handed in by the caller (checked at the call sites by the rules using the role)
-            cap_param = any(l['ty']['s'] == 'std::option::Option<u64>' for l in b.locals[1:b.argc + 1])
+            cap_param = any(l['ty']['s'].lstrip('&') == 'std::option::Option<u64>' for l in b.locals[1:b.argc + 1])
             if 'max_capacity' not in reads and not cap_param:
                 continue
-            if what == 'weights_to_evict' and 'weighted_size' not in reads:
+            size_param = any(l['ty']['s'] == 'u64' for l in b.locals[1:b.argc + 1])
+            if what == 'weights_to_evict' and 'weighted_size' not in reads and not (cap_param and size_param):
                 continue
+            if what == 'has_capacity' and cap_param and 'max_capacity' not in reads:
+                # among the predicates over a capacity argument the fits-predicate is the one that adds the candidate to the size
+                adds = any(s_['st'] == 'assign' and s_['rv']['rv'] == 'binop' and str(s_['rv']['op']).startswith('Add')
+                           for x in [n] + prog.closures_of.get(n, []) for _bi, _si, s_ in prog.bodies[x].stmts())
+                if not adds:
+                    continue
             if what == 'weights_to_evict':
                 if any(str(e).endswith('saturating_sub') for x in [n] + prog.closures_of.get(n, []) for e in R.ext_calls.get(x, ())):
                     out.append(n)
